@@ -83,6 +83,9 @@ def _generate_operator(ns, node):
                 r2 = to_signed(r2)
         r = f"{r1} {operator} {r2}"
         s = s1 or s2
+        # Comparison results are unsigned (in Verilog as in Migen).
+        if operator in ["<", "<=", "==", "!=", ">", ">="]:
+            s = False
 
     # Ternary Operator.
     if arity == OperatorType.TERNARY:
